@@ -525,9 +525,9 @@ func init() {
 	run.Register(&run.Check{
 		ID:    "C16",
 		Level: "model_checking",
-		Rule: "9 operations: parse(valid source exercising every token kind and keyword letter case), parse(invalid source), load of a second script set whose files have the same text as the running ones but a different callee, load-and-run of a script whose grok / add_pattern / replace / zone texts nobody has used before (new on every call), run of shared loaded scripts plain / grok+add_pattern / use() of two callees / loops+collections / every builtin, each on its own point; " +
+		Rule: "10 operations: parse(valid source exercising every token kind and keyword letter case), parse(invalid source), parse(a source whose diagnostic is recorded by a constructor before the parse recovers from a nil node), load of a second script set whose files have the same text as the running ones but a different callee, load-and-run of a script whose grok / add_pattern / replace / zone texts nobody has used before (new on every call), run of shared loaded scripts plain / grok+add_pattern / use() of two callees / loops+collections / every builtin, each on its own point; " +
 			"(1) every operation alone and every ordered pair: the deep hash (reflection+unsafe, unexported fields included) of everything reachable from the shared roots — the loaded scripts and EVERY package-level variable of the 9 repo packages (generated accessors) — must be unchanged by the operation unless it performed an exclusive lock/once operation (read locks do not exempt); " +
-			"(2) cooperative scheduler over the sync.Pool shim: all 45 pairs with <=2 preemptions (thorough 3) and all 165 triples with <=1 (thorough 2) at every pool/lock operation, first thread chosen too; oracles per schedule: each result equals the alone-run, no panic, no deadlock, pooled objects owned by one goroutine between Get and Put (no put by non-owner, no double put, no object handed out twice, no modification while pooled), shared hash unchanged; " +
+			"(2) cooperative scheduler over the sync.Pool shim: all 55 pairs with <=2 preemptions (thorough 3) and all 220 triples with <=1 (thorough 2) at every pool/lock operation, first thread chosen too; oracles per schedule: each result equals the alone-run, no panic, no deadlock, pooled objects owned by one goroutine between Get and Put (no put by non-owner, no double put, no object handed out twice, no modification while pooled), shared hash unchanged; " +
 			"(3) separate free-running -race pass over all pairs, triples and 8/16-goroutine fan-outs (non-exhaustive, reported apart); distinct = distinct schedules",
 		Assumptions: []string{
 			"runs synchronise on nothing but the pools, so a segment that writes shared-reachable memory outside a lock is a data race with any concurrent reader; its absence on all operations licenses scheduling only at pool/lock operations (DRF reduction)",
